@@ -940,30 +940,44 @@ func c08RunJobs(jobs []*c08Job, nw int) []*c08Result {
 				}
 				served++
 				b, _ := json.Marshal(jobs[k])
-				_, werr := p.in.Write(append(b, '\n'))
-				var line []byte
-				var rerr error
-				if werr == nil {
-					type rd struct {
-						line []byte
-						err  error
-					}
-					ch := make(chan rd, 1)
-					go func(r *bufio.Reader) {
-						l, e := r.ReadBytes('\n')
-						ch <- rd{l, e}
-					}(p.out)
-					select {
-					case x := <-ch:
-						line, rerr = x.line, x.err
-					case <-time.After(c08JobTimeout):
-						// far beyond anything an admissible history needs (milliseconds): a hang
-						rerr = fmt.Errorf("timeout")
-					}
-				}
+				// a worker that dies is given the job once more in a fresh process: only a
+				// reproducible death is a host crash (an out-of-memory kill of the machine is not)
 				var res c08Result
-				if werr != nil || rerr != nil || json.Unmarshal(line, &res) != nil || res.ID != jobs[k].ID {
-					// the worker died on this job (Go fatal error): host crash
+				died := true
+				for attempt := 0; attempt < 2 && died; attempt++ {
+					_, werr := p.in.Write(append(b, '\n'))
+					var line []byte
+					var rerr error
+					if werr == nil {
+						type rd struct {
+							line []byte
+							err  error
+						}
+						ch := make(chan rd, 1)
+						go func(r *bufio.Reader) {
+							l, e := r.ReadBytes('\n')
+							ch <- rd{l, e}
+						}(p.out)
+						select {
+						case x := <-ch:
+							line, rerr = x.line, x.err
+						case <-time.After(c08JobTimeout):
+							// far beyond anything an admissible history needs (milliseconds): a hang
+							rerr = fmt.Errorf("timeout")
+						}
+					}
+					res = c08Result{}
+					if werr != nil || rerr != nil || json.Unmarshal(line, &res) != nil || res.ID != jobs[k].ID {
+						_ = p.cmd.Process.Kill()
+						_ = p.cmd.Wait()
+						p = c08Spawn()
+						served = 0
+						continue
+					}
+					died = false
+				}
+				if died {
+					// the worker died twice on this job (Go fatal error): host crash
 					if c08CrashLog != "" {
 						mu.Lock()
 						if f, e := os.OpenFile(c08CrashLog, os.O_APPEND|os.O_CREATE|os.O_WRONLY, 0o644); e == nil {
@@ -972,14 +986,10 @@ func c08RunJobs(jobs []*c08Job, nw int) []*c08Result {
 						}
 						mu.Unlock()
 					}
-					_ = p.cmd.Process.Kill()
-					_ = p.cmd.Wait()
 					results[k] = &c08Result{ID: jobs[k].ID, Outs: nil}
 					mu.Lock()
 					crashes++
 					mu.Unlock()
-					p = c08Spawn()
-					served = 0
 					continue
 				}
 				results[k] = &res
